@@ -498,7 +498,7 @@ def select(rng, genf, required, per_tag, max_programs, tries=4000):
 # ------------------------------------------------------------------ C08 programs (macros)
 
 C08_TAGS = ["or-then-again", "twice", "clash-before", "clash-after", "site-or", "body-or", "nested-body", "nested-head", "head-macro", "expr-param", "ident-in", "ident-out",
-            "local-pat", "local-cond", "body-attached-cond", "body-attached-let", "local-neg", "twice-nested", "nested-passes-local", "expr-arg-mentions-clash", "macro-in-fact-head", "chain-twice", "chain-clash", "suffix-twice"]
+            "local-pat", "local-cond", "body-attached-cond", "body-attached-let", "local-neg", "twice-nested", "nested-passes-local", "expr-arg-mentions-clash", "macro-in-fact-head", "chain-twice", "chain-clash", "suffix-twice", "block-shadow"]
 
 
 def gen_macro_body(rng, p, edb, idb, params, nested=None, want=()):
@@ -556,6 +556,22 @@ def gen_macro_body(rng, p, edb, idb, params, nested=None, want=()):
     return items + g.guards, tags
 
 
+def gen_locals_in_exprs(items):
+    """does some expression (argument, condition, generator bound) of these body items READ a macro-local variable (an int-numbered one)?"""
+    def ex_has(e): return any(isinstance(v, int) for v in gen_vars(e))
+    def bx_has(b):
+        if b == "tt": return False
+        if b[0] in ("and", "or"): return bx_has(b[1]) or bx_has(b[2])
+        if b[0] == "not": return bx_has(b[1])
+        return ex_has(b[1]) or ex_has(b[2])
+    def cond_has(c): return bx_has(c[1]) if c[0] == "if" else ex_has(c[2])
+    for it in items:
+        if it[0] == "cl" and (any(a[0] == "e" and ex_has(a[1]) for a in it[2]) or any(cond_has(c) for c in it[3])): return True
+        if it[0] in ("if", "let", "iflet") and cond_has(it): return True
+        if it[0] == "or" and any(gen_locals_in_exprs(alt) for alt in it[1]): return True
+    return False
+
+
 def attached_conds(items):
     """the conditions attached to clauses (no comma), through disjunctions"""
     out = []
@@ -611,6 +627,10 @@ def gen_c08_program(rng):
         if rng.chance(1, 4):           # the detached spelling of the same conditions
             body = detach_conds(body); t -= {"body-attached-cond", "body-attached-let"}
         macros.append({"params": ["expr" if m == "expr" else "ident" for m in ms], "body": body}); modes.append(ms); tags |= t
+        # printer-level sugar (tools/vlib/surface.py s_ex): every other READ of a macro-local variable `v` inside an expression of this macro's body is written as the block
+        # `{ let v = v.clone(); v }` - a shadowing re-binding whose initialiser mentions the variable it re-binds.  The value is that of `v.clone()`; the hygiene pass must
+        # rename the occurrence in the initialiser (free) and leave the block-bound ones alone (scope-aware walk of block expressions, `block_visit_free_vars_mut`)
+        if gen_locals_in_exprs(body) and rng.chance(1, 2): macros[-1]["blk"] = True; tags.add("block-shadow")
     # a "chain" macro whose only macro-local identifier is bound exclusively through the arguments of NESTED invocations:
     #   macro hop($a, $b) { r($a, $b) }   macro chain($a, $b) { hop!($a, mid), hop!(mid, $b) }
     # (renaming the locals of `chain` must also see the identifiers it hands to nested invocations)
